@@ -258,7 +258,7 @@ MUTANTS = [
      "        data = f.read(8096)\n        if not data:\n            pos = 4\n            continue"),
     ('C17', 'record-iterator-short-data', FS,
      "            if h.plen:\n                data = self._file.read(h.plen)\n            else:\n                if h.back == 0:",
-     "            if h.plen:\n                data = self._file.read(h.plen)[:-1] + b'.'\n            else:\n                if h.back == 0:"),
+     "            if h.plen:\n                data = self._file.read(h.plen)[:-1] + b'!'\n            else:\n                if h.back == 0:"),
 ]
 
 
